@@ -313,9 +313,13 @@ func storesToFreeVar(f *ssa.Function, fv *ssa.FreeVar) bool {
 					return true
 				}
 			case *ssa.MakeClosure:
-				for _, bb := range x.Bindings {
+				for k, bb := range x.Bindings {
 					if bb == fv {
-						return true
+						// handed on to a nested literal: it is assigned only if that literal assigns it
+						nf, ok := x.Fn.(*ssa.Function)
+						if !ok || k >= len(nf.FreeVars) || storesToFreeVar(nf, nf.FreeVars[k]) {
+							return true
+						}
 					}
 				}
 			case ssa.CallInstruction:
@@ -917,6 +921,9 @@ func (fr *Frame) callBuiltin(st *State, instr ssa.Instruction, b *ssa.Builtin, c
 	case "recover":
 		return Val{T: "0", S: "Int"}
 	case "close":
+		// ghost event: visible to contracts as `at call chan.close` (arg0 = the channel) / count("chan.close")
+		fr.atCall(st, "chan.close", args, instr.Pos())
+		fr.afterCall(st, "chan.close", Val{T: "true", S: "Bool"})
 		return Val{T: "false", S: "Bool"}
 	}
 	u.unsup("builtin %s", b.Name())
